@@ -292,6 +292,98 @@ pub fn params_replay(args: &Args) -> i32 {
 }
 
 /// predictions of the real predictor next to plaintext, parameters and tokens, for Trace_Match
+/// one run of the prediction trace (Trace_Match): the analysis of `s` under the estimated or a
+/// forced parameter vector.  None: not analysed successfully (nothing to validate);
+/// Some(supported): written, with or without tokens
+fn write_match_run(out: &mut impl Write, cases: &mut impl Write, run: usize, label: &str, s: &[u8], forced: Option<&[u32]>, maxplain: usize) -> Option<bool> {
+    verif::predictor_log_start();
+    let a = guarded(|| verif::analyse_trace_with(s, forced));
+    let preds = verif::predictions_take();
+    let states = verif::predictor_log_take();
+    let a = match a { Ok(a) => a, Err(_) => return None };
+    let (parse, params) = match (&a.parse, &a.params) { (Some(p), Some(q)) if a.error.is_none() => (p, q), _ => return None };
+    if parse.plain.len() > maxplain {
+        return None;
+    }
+    let sup = (1..=7).contains(&params[4]) && params[0] <= 1;
+    let tsegs: Vec<Seg> = segments(&a.ops).into_iter().filter(|x| x.marker == "token").collect();
+    writeln!(cases, "{}", json!({"run":run,"label":label,"hex":hex(s),"forced":forced})).unwrap();
+    writeln!(out, "{}", event("Reset", json!({"run":run,"label":label,"params":params,"supported":sup,
+        "plain": if sup { Value::Array(parse.plain.iter().map(|b| json!(b)).collect()) } else { json!([]) }}))).unwrap();
+    if !sup {
+        writeln!(out, "{}", event("Skip", json!({}))).unwrap();
+        return Some(false);
+    }
+    let mut k = 0usize;
+    for b in &parse.blocks {
+        if b.block_type == 0 {
+            writeln!(out, "{}", event("Stored", json!({"len": b.stored.len()}))).unwrap();
+            continue;
+        }
+        writeln!(out, "{}", event("Block", json!({}))).unwrap();
+        for t in &b.tokens {
+            let tj = match t { Tok::Lit(v) => json!([0, v, 0, 0]), Tok::Ref { len, dist, irregular258 } => json!([1, len, dist, *irregular258 as u32]) };
+            let (st, pr) = (states.get(k), preds.get(k));
+            let pj = match pr { Some(p) => match &p.1 { Tok::Lit(_) => json!([0, 0, 0]), Tok::Ref { len, dist, .. } => json!([1, len, dist]) }, None => json!([9, 9, 9]) };
+            let oj = tsegs.get(k).map(|x| ops_json(&x.ops)).unwrap_or(json!([["missing"]]));
+            writeln!(out, "{}", event("Tok", json!({"t": tj, "p": pj, "ops": oj, "pos": st.map(|x| x.pos).unwrap_or(0), "pend": st.map(|x| x.pending as u32).unwrap_or(9)}))).unwrap();
+            k += 1;
+        }
+    }
+    writeln!(out, "{}", event("End", json!({}))).unwrap();
+    Some(true)
+}
+
+/// small-scope exhaustive conformance of the matcher (the implementation's side of MC_Match):
+/// every plaintext of up to n bytes over {a, b}, every valid LZ77 parse of it (fixed Huffman
+/// code, one block), analysed under every parameter vector of the file given (MC_Match's ParamSet)
+pub fn match_exhaustive(args: &Args) -> i32 {
+    quiet_panics();
+    let n = args.num("n", 6) as usize;
+    let txt = std::fs::read_to_string(args.req("vectors")).unwrap();
+    let v: Value = serde_json::from_str(txt.lines().next().unwrap_or("{}")).unwrap();
+    let vecs: Vec<Vec<u32>> = v["vecs"].as_array().map(|a| a.iter().map(|x| x.as_array().unwrap().iter().map(|y| y.as_u64().unwrap() as u32).collect()).collect()).unwrap_or_default();
+    let mut out = std::io::BufWriter::new(std::fs::File::create(args.req("out")).unwrap());
+    let mut cases = std::io::BufWriter::new(std::fs::File::create(format!("{}.cases", args.req("out"))).unwrap());
+    fn parses(plain: &[u8], pos: usize, cur: &mut Vec<(usize, usize)>, all: &mut Vec<Vec<(usize, usize)>>) {
+        if pos == plain.len() { all.push(cur.clone()); return; }
+        cur.push((1, 0));
+        parses(plain, pos + 1, cur, all);
+        cur.pop();
+        for dist in 1..=pos {
+            let mut l = 0;
+            while pos + l < plain.len() && plain[pos + l - dist] == plain[pos + l] { l += 1; }
+            for len in 3..=l {
+                cur.push((len, dist));
+                parses(plain, pos + len, cur, all);
+                cur.pop();
+            }
+        }
+    }
+    let (mut run, mut analysed, mut failed, mut streams) = (0usize, 0usize, 0usize, 0usize);
+    for len in 1..=n {
+        for bits in 0..(1u32 << len) {
+            let plain: Vec<u8> = (0..len).map(|i| b'a' + ((bits >> i) & 1) as u8).collect();
+            let mut all = Vec::new();
+            parses(&plain, 0, &mut Vec::new(), &mut all);
+            for (pi, toks) in all.iter().enumerate() {
+                let s = crate::gen::encode_fixed(&plain, toks, usize::MAX);
+                streams += 1;
+                for (vi, vec) in vecs.iter().enumerate() {
+                    let label = format!("exhaustive/{}/parse{}/v{}", String::from_utf8_lossy(&plain), pi, vi);
+                    match write_match_run(&mut out, &mut cases, run, &label, &s, Some(vec), 1 << 20) {
+                        None => failed += 1,
+                        Some(_) => { run += 1; analysed += 1; }
+                    }
+                }
+            }
+        }
+    }
+    eprintln!("{} streams, {} runs analysed, {} analyses failed (Err: allowed)", streams, analysed, failed);
+    println!("{}", json!({"streams": streams, "runs": analysed, "failed": failed, "vectors": vecs.len()}));
+    0
+}
+
 /// a parameter vector next to the estimated one (always inside the ranges of vec_to_params)
 fn perturb(rng: &mut Rng, est: &[u32]) -> Vec<u32> {
     let mut v = est.to_vec();
@@ -358,45 +450,10 @@ pub fn match_record(args: &Args) -> i32 {
         }
     }
     for (label, s, forced) in &jobs {
-        let s: &Vec<u8> = s;
-        verif::predictor_log_start();
-        let a = guarded(|| verif::analyse_trace_with(s, forced.as_deref()));
-        let preds = verif::predictions_take();
-        let states = verif::predictor_log_take();
-        let a = match a { Ok(a) => a, Err(_) => continue };
-        let (parse, params) = match (&a.parse, &a.params) { (Some(p), Some(q)) if a.error.is_none() => (p, q), _ => continue };
-        if parse.plain.len() > maxplain * 2 {
-            continue;
+        match write_match_run(&mut out, &mut cases, run, label, s, forced.as_deref(), maxplain * 2) {
+            None => {}
+            Some(sup) => { run += 1; if sup { supported += 1; } }
         }
-        let sup = (1..=7).contains(&params[4]) && params[0] <= 1;
-        let tsegs: Vec<Seg> = segments(&a.ops).into_iter().filter(|x| x.marker == "token").collect();
-        writeln!(cases, "{}", json!({"run":run,"label":label,"hex":hex(s),"forced":forced})).unwrap();
-        writeln!(out, "{}", event("Reset", json!({"run":run,"label":label,"params":params,"supported":sup,
-            "plain": if sup { Value::Array(parse.plain.iter().map(|b| json!(b)).collect()) } else { json!([]) }}))).unwrap();
-        if !sup {
-            writeln!(out, "{}", event("Skip", json!({}))).unwrap();
-            run += 1;
-            continue;
-        }
-        supported += 1;
-        let mut k = 0usize;
-        for b in &parse.blocks {
-            if b.block_type == 0 {
-                writeln!(out, "{}", event("Stored", json!({"len": b.stored.len()}))).unwrap();
-                continue;
-            }
-            writeln!(out, "{}", event("Block", json!({}))).unwrap();
-            for t in &b.tokens {
-                let tj = match t { Tok::Lit(v) => json!([0, v, 0, 0]), Tok::Ref { len, dist, irregular258 } => json!([1, len, dist, *irregular258 as u32]) };
-                let (st, pr) = (states.get(k), preds.get(k));
-                let pj = match pr { Some(p) => match &p.1 { Tok::Lit(_) => json!([0, 0, 0]), Tok::Ref { len, dist, .. } => json!([1, len, dist]) }, None => json!([9, 9, 9]) };
-                let oj = tsegs.get(k).map(|x| ops_json(&x.ops)).unwrap_or(json!([["missing"]]));
-                writeln!(out, "{}", event("Tok", json!({"t": tj, "p": pj, "ops": oj, "pos": st.map(|x| x.pos).unwrap_or(0), "pend": st.map(|x| x.pending as u32).unwrap_or(9)}))).unwrap();
-                k += 1;
-            }
-        }
-        writeln!(out, "{}", event("End", json!({}))).unwrap();
-        run += 1;
     }
     eprintln!("{} runs, {} with a supported hash", run, supported);
     0
